@@ -21,6 +21,9 @@ import (
 	"verifharness/internal/rng"
 )
 
+// RawM receives the columns as the driver's bytes.
+type RawM map[string]sql.RawBytes
+
 // Row is the output type of the runtime layer's statements.
 type Row struct {
 	A int64  `db:"a"`
@@ -72,6 +75,8 @@ const (
 	l4NoOutSQL = "UPDATE t SET x = 1 WHERE id IN ($IDs[:])"
 	// the same three columns into the keys of a map (destination forms "validmap")
 	l4MapSQL = "SELECT (a, b, l) AS (&M.*) FROM t WHERE id IN ($IDs[:])"
+	// ... and of a map of sql.RawBytes (destination form "validraw")
+	l4RawSQL = "SELECT (a, b, l) AS (&RawM.*) FROM t WHERE id IN ($IDs[:])"
 )
 
 // l4Case is one scripted operation (DESIGN §4 G-F / G-H, runtime layer).
@@ -86,15 +91,17 @@ type l4Case struct {
 	PrepareErr bool   `json:"prepareErr"`
 	RunErr     bool   `json:"runErr"`
 	// TX only: when the transaction is finished relative to the operation
-	TxEnd      string   `json:"txEnd"`     // after | before-query | between (Query created, then tx ended, then run)
-	Finishers  []string `json:"finishers"` // commit / rollback calls after the operation
-	Concurrent int      `json:"concurrent"`
-	Op         string   `json:"op"`       // get | getall | run | iter
-	Dests      string   `json:"dests"`    // valid | invalid | none | outcome+valid | niloutcome+valid | outcome | outcome+invalid
-	Calls      []string `json:"calls"`    // iter: next get getoutcome getniloutcome getinvalid close
-	CancelAt   int      `json:"cancelAt"` // iter: cancel the context before this call index (-1 never)
-	TxOpts     int      `json:"txOpts"`   // Begin with nil options, empty options, ReadOnly
-	ErrWrap    int      `json:"errWrap"`  // which sentinel the injected driver errors wrap (0 none)
+	TxEnd       string   `json:"txEnd"`     // after | before-query | between (Query created, then tx ended, then run)
+	Finishers   []string `json:"finishers"` // commit / rollback calls after the operation
+	Concurrent  int      `json:"concurrent"`
+	Op          string   `json:"op"`          // get | getall | run | iter
+	Dests       string   `json:"dests"`       // valid | invalid | none | outcome+valid | niloutcome+valid | outcome | outcome+invalid
+	Calls       []string `json:"calls"`       // iter: next get getoutcome getniloutcome getinvalid close
+	CancelAt    int      `json:"cancelAt"`    // iter: cancel the context before this call index (-1 never)
+	PreDeadline bool     `json:"preDeadline"` // the preliminary run's done context is an expired deadline
+	NullL       bool     `json:"nullL"`       // map destinations: the third column is NULL in every row
+	TxOpts      int      `json:"txOpts"`      // Begin with nil options, empty options, ReadOnly
+	ErrWrap     int      `json:"errWrap"`     // which sentinel the injected driver errors wrap (0 none)
 	// PreCtx: a preliminary Run() of the same Statement on the same DB/TX before the
 	// operation proper: "" none, "live", "cancelled" (its context is already cancelled)
 	PreCtx string `json:"preCtx"`
@@ -348,6 +355,21 @@ func genL4(r *rng.R) *l4Case {
 		c.ErrWrap = 1 + r.Intn(5)
 	}
 	c.TxOpts = r.Intn(3)
+	if c.Op == "iter" && c.HasOutputs && c.Ctx == "marker" && r.Chance(1, 60) {
+		// a row read into a map of sql.RawBytes (database/sql keeps the row's memory locked
+		// until the next call on the rows), then the context is cancelled, then Close: the
+		// result set is closed when Close returns, and Close reports the cancellation
+		c.Dests = "validraw"
+		c.Calls = []string{"next", "get", "close", "close"}
+		c.CancelAt = 2
+		if c.NRows == 0 {
+			c.NRows = 1
+		}
+		c.BadRow, c.FetchErrAt, c.FewCols, c.ExtraSets = -1, -1, false, 0
+		c.CloseErr, c.RunErr, c.PrepareErr = false, false, false
+	}
+	c.PreDeadline = r.Chance(1, 2)
+	c.NullL = r.Chance(1, 2)
 	return c
 }
 
@@ -477,6 +499,10 @@ func runL4Case(c *l4Case) (obs *l4Obs) {
 		q = l4MapSQL
 		samples = []any{IDs{}, sqlair.M{}}
 	}
+	if c.Dests == "validraw" {
+		q = l4RawSQL
+		samples = []any{IDs{}, RawM{}}
+	}
 	stmt, err := sqlair.Prepare(q, samples...)
 	if err != nil {
 		obs.Panic = "prepare failed: " + err.Error()
@@ -495,7 +521,11 @@ func runL4Case(c *l4Case) (obs *l4Obs) {
 		if i == c.BadRow {
 			a = "abc"
 		}
-		sc.Rows = append(sc.Rows, []driver.Value{a, fmt.Sprintf("r%d", i+1), fmt.Sprintf("l%d", i+1)})
+		var l driver.Value = fmt.Sprintf("l%d", i+1)
+		if c.Dests == "validmap" && c.NullL {
+			l = nil // NULL: the key is there, holding nil
+		}
+		sc.Rows = append(sc.Rows, []driver.Value{a, fmt.Sprintf("r%d", i+1), l})
 	}
 	if c.FewCols {
 		sc.Columns = sc.Columns[:1]
@@ -596,7 +626,12 @@ func runL4Case(c *l4Case) (obs *l4Obs) {
 		st.SetScript(fakedrv.Script{Columns: rowCols})
 		pctx, pcancel := context.WithCancel(context.Background())
 		if c.PreCtx == "cancelled" {
-			pcancel()
+			if c.PreDeadline {
+				// (done because its deadline has passed, not because it was cancelled)
+				pctx, pcancel = context.WithDeadline(context.Background(), time.Now().Add(-time.Second))
+			} else {
+				pcancel()
+			}
 		}
 		var perr error
 		if onTx {
@@ -657,10 +692,17 @@ func runL4Case(c *l4Case) (obs *l4Obs) {
 			args = []any{&oc, &Unrelated{}}
 			withOutcome = true
 		}
-		obs.Returns = append(obs.Returns, errText(qr.Get(args...)))
+		if c.Dests == "validmap" && c.NullL {
+			m["l"] = "stale" // the map is reused: the row replaces what it held
+		}
+		gErr := qr.Get(args...)
+		obs.Returns = append(obs.Returns, errText(gErr))
 		obs.Stored = row.A
 		if c.Dests == "validmap" {
 			obs.Stored, _ = m["a"].(int64)
+			if v, ok := m["l"]; gErr == nil && c.NullL && (!ok || v != nil || len(m) != 3) {
+				obs.RowsFaithful = false
+			}
 		}
 		if withOutcome {
 			if oc.Result() == nil {
@@ -728,7 +770,11 @@ func runL4Case(c *l4Case) (obs *l4Obs) {
 			for _, m := range ms[1:] {
 				id, _ := m["a"].(int64)
 				obs.Appended = append(obs.Appended, id)
-				if len(m) != 3 || m["b"] != fmt.Sprintf("r%d", id) || m["l"] != fmt.Sprintf("l%d", id) {
+				var wantL any = fmt.Sprintf("l%d", id)
+				if c.NullL {
+					wantL = nil
+				}
+				if len(m) != 3 || m["b"] != fmt.Sprintf("r%d", id) || m["l"] != wantL {
 					// not the row the driver delivered at this position (e.g. every element is
 					// the same map, holding the last row)
 					obs.RowsFaithful = false
@@ -763,7 +809,11 @@ func runL4Case(c *l4Case) (obs *l4Obs) {
 			if i == c.CancelAt {
 				before := st.OpenRows()
 				cancel()
-				if before > 0 {
+				if before > 0 && c.Dests == "validraw" {
+					// (database/sql cannot close these rows by itself while the caller holds
+					// RawBytes of the current row: it notes the cancellation and waits)
+					time.Sleep(50 * time.Millisecond)
+				} else if before > 0 {
 					waitFor(func() bool { return st.OpenRows() == 0 })
 				}
 			}
@@ -773,10 +823,20 @@ func runL4Case(c *l4Case) (obs *l4Obs) {
 			case "get":
 				var row Row
 				var e error
-				if c.Dests == "validmap" {
+				if c.Dests == "validraw" {
+					m := RawM{}
+					e = it.Get(m)
+					fmt.Sscan(string(m["a"]), &row.A)
+				} else if c.Dests == "validmap" {
 					m := sqlair.M{}
+					if c.NullL {
+						m["l"] = "stale"
+					}
 					e = it.Get(m)
 					row.A, _ = m["a"].(int64)
+					if v, ok := m["l"]; e == nil && c.NullL && (!ok || v != nil || len(m) != 3) {
+						obs.RowsFaithful = false
+					}
 				} else {
 					e = it.Get(&row)
 				}
